@@ -25,9 +25,15 @@ Opt == [none |-> <<>>,
         pool3 |-> [cap |-> [d3 |-> "pooldef"], lab |-> [d1 |-> "l1"]]]
 Options == IF OptSet = "small" THEN {"none", "both1", "lab2"} ELSE DOMAIN Opt
 Varied == {"w", "c", "cp1", "cp2", "sw", "fp"}
+\* "full": every option on every varied element, but at most three elements away from the small option set at a time
+\* (all six at once would be 6^6 x 3 models - more than memory holds, and nothing in the code couples more than an
+\* interface, its peer, their services and owners)
+Assignments == IF OptSet = "small" THEN [Varied -> Options]
+               ELSE {a \in [Varied -> Options] : Cardinality({x \in Varied : a[x] \notin {"none", "both1", "lab2"}}) <= 2
+                                                  /\ Cardinality({x \in Varied : a[x] # "none"}) <= 4}
 ARMs == {[n |-> [x \in DOMAIN Shape |-> [cls |-> Shape[x], props |-> "props-" \o x, stitch |-> (x \in st2),
                                         deleg |-> IF x \in Varied THEN Opt[a[x]] ELSE IF x = "gpu" THEN Opt["cap1"] ELSE <<>>]],
-          e |-> Edges] : a \in [Varied -> Options], st2 \in {{}, {"cp2"}, {"fp", "fac"}}}
+          e |-> Edges] : a \in Assignments, st2 \in {{}, {"cp2"}, {"fp", "fac"}}}
 
 Init == \E arm \in ARMs :
           /\ path = <<[op |-> "LoadARM", arm |-> [n |-> arm.n, e |-> SetToSeq({[ends |-> SetToSeq(ed.ends), rel |-> ed.rel] : ed \in arm.e})]]>>
